@@ -143,6 +143,7 @@ func (l *IOLog) IO(kind string, path string, off int64, n int, buf []byte) {
 				fs.Durable = st.Size()
 			} else {
 				fs.Created = true
+				ev.Name = "created"
 			}
 			l.files[path] = fs
 		}
